@@ -163,6 +163,33 @@ Theorem C11_forced_stop_touches_one_row : forall c s m st info sent ts,
 Proof. exact forced_stop_touches_one_row. Qed.
 Print Assumptions C11_forced_stop_touches_one_row.
 
+(* no stop / cancel / pause / resume request, no upward report and no hand-off creates a task or an execution,
+   anywhere in the tree, over any sequence of them *)
+Theorem C11_requests_create_nothing : forall ops n, tshape (fold_left apply_op ops n) = tshape n.
+Proof. exact requests_create_nothing. Qed.
+Print Assumptions C11_requests_create_nothing.
+
+(* the late start: a sub-workflow whose start request was on its way when its parent workflow was cancelled is
+   CANCELLED with the parent's message, owns no task, has reported once; it never gets a task, never changes and
+   never reports again whatever follows; its result cancels the parent task *)
+Theorem C11_late_sub_workflow_is_cancelled_and_empty : forall parent,
+  nstate parent = CANCELLED -> new_child parent = mkN CANCELLED (ninfo parent) 1 [].
+Proof. exact late_child_is_cancelled_and_empty. Qed.
+Print Assumptions C11_late_sub_workflow_is_cancelled_and_empty.
+
+Theorem C11_nothing_below_a_cancelled_workflow_gets_a_task : forall parent ops,
+  nstate parent = CANCELLED ->
+  ntasks (fold_left apply_op ops (new_child parent)) = [] /\
+  rows false (fold_left apply_op ops (new_child parent)) = rows false (new_child parent).
+Proof. exact late_child_stays_empty. Qed.
+Print Assumptions C11_nothing_below_a_cancelled_workflow_gets_a_task.
+
+Theorem C11_late_sub_workflow_cancels_parent_task : forall parent s,
+  nstate parent = CANCELLED -> is_completed s = false ->
+  deliver_task (s, Plain, [new_child parent]) = (CANCELLED, Plain, [new_child parent]).
+Proof. exact late_child_cancels_parent_task. Qed.
+Print Assumptions C11_late_sub_workflow_cancels_parent_task.
+
 (* non-vacuity: root RUNNING with a PAUSED Plain task over a PAUSED sub-workflow (the seeded case: cancel after
    pause), whose with-items task owns a finished (ERROR, stopped by force) execution with a RUNNING one below it
    and a RUNNING one; cancel reaches all of them; hand-offs in two orders give the same tree *)
@@ -178,6 +205,9 @@ Example C11_tree_nonvacuous :
   fst (deliver_at [(0, 0)] (fst (deliver_at [(0, 0); (0, 1)] (fst r)))) =
   fst (deliver_at [(0, 0); (0, 1)] (fst (deliver_at [(0, 0)] (fst r)))) /\
   nstate (fst (stop_at SUCCESS 4 [(0, 0)] root)) = RUNNING /\ snd (stop_at SUCCESS 4 [(0, 0)] root) = Declared /\
-  snd (stop_at ERROR 4 [(0, 0)] root) = Ok.
+  snd (stop_at ERROR 4 [(0, 0)] root) = Ok /\
+  (* a sub-workflow of the second task of the root starts after the cancel / while the root still runs *)
+  nth_error (ntasks (fst (start_child_at [] 1 1 (fst r)))) 1 = Some (SUCCESS, Plain, [mkN CANCELLED 3 1 []]) /\
+  nth_error (ntasks (fst (start_child_at [] 1 1 root))) 1 = Some (SUCCESS, Plain, [mkN RUNNING 0 0 []]).
 Proof. vm_compute. repeat split. Qed.
 End Tree.
